@@ -31,7 +31,7 @@ ASSUMPTIONS = ["os-level events issued through Python are all seen by the audit 
                "'complete' = the file decompresses (with its .ch) to / equals the source bytes",
                "a failure is an exception raised while one chunk is being (de)compressed"]
 REQUIRED = {"compress_faults_injected": 20, "decompress_faults_injected": 20, "remove_events_judged": 4, "stale_bin_runs": 9, "twin_sync_selectors": 50, "twin_selectors": 200,
-            "roundtrips": 4, "entry_paths": 8, "twin_inconsistent_metadata": 3, "explicit_companions": 4, "silent_write_faults_injected": 20, "same_base_name_entries": 12, "noncanonical_entries": 18, "scratch_copies": 5}
+            "roundtrips": 4, "entry_paths": 8, "twin_inconsistent_metadata": 3, "explicit_companions": 4, "silent_write_faults_injected": 20, "same_base_name_entries": 12, "noncanonical_entries": 18, "scratch_copies": 5, "odd_names": 3}
 CASE_TIMEOUT = 200.0
 
 
@@ -605,6 +605,30 @@ def run_case(case):
                     sr.close()
         except Exception as e:
             res.exception("entry:same-base-name:exception", e, f"{kind}: {name_a} / {name_b}")
+        # ---- recordings whose NAME happens to contain the words the library looks for in suffixes ("cbin", "bin", "meta", "ch"): the kind of a file is
+        #      told by its suffix; open, compress (keeping the original), open all three entry points, decompress elsewhere
+        for stem in ("copy_from_cbin_g0_t0.imec0.ap", "bin2cbin.meta_g0_t0.imec0.ap", "ch.cbin_test_g0_t0.imec0.ap"):
+            w = d / "odd-names" / stem.split("_")[0]
+            lab = f"{kind}: recording named {stem}.bin"
+            try:
+                bb = G.write(rec, w, name=stem)
+                sr = spikeglx.Reader(bb)
+                res.count("entry_paths")
+                res.count("odd_names")
+                res.check(not sr.is_mtscomp and sr.shape == (ns, rec.nc) and np.allclose(sr[:, :], cal, rtol=2.0 ** -22, atol=0), "entry:odd-name:bin", f"{lab}: does not open as the flat recording it is")
+                fcx = sr.compress_file(keep_original=True, chunk_duration=0.003)
+                sr.close()
+                for suf in (".bin", ".cbin", ".meta"):
+                    srx = spikeglx.Reader(bb.with_suffix(suf))
+                    res.check(srx.shape == (ns, rec.nc) and np.allclose(srx[:, :], cal, rtol=2.0 ** -22, atol=0) and srx.is_mtscomp == (Path(srx.file_bin).suffix == ".cbin"),
+                              "entry:odd-name:entry-points", f"{lab}: Reader({suf}) resolves to {getattr(srx.file_bin, 'name', None)} shape {srx.shape}")
+                    srx.close()
+                srx = spikeglx.Reader(fcx)
+                got = srx.decompress_file(keep_original=True, out=w / "rt" / "rt.bin") if (w / "rt").mkdir() is None else None
+                srx.close()
+                res.check(Path(got).read_bytes() == rec.raw.tobytes(), "entry:odd-name:roundtrip", f"{lab}: compress followed by decompress is not byte-identical")
+            except Exception as e:
+                res.exception("entry:odd-name:exception", e, lab)
         # ---- the copy decompressed to a scratch folder is the same recording through the reader - also when the scratch folder has been used
         #      before: two sessions hold a recording of the SAME file name (other length, other gains); the first is decompressed to scratch, its
         #      large scratch .bin is removed (or everything is, or nothing was there), then the second goes through the same scratch folder
